@@ -441,8 +441,8 @@ def mutate_pgn(rng, text):
 def split_ops(out):
     lines = [l for l in out.split("\n") if l]
     ops = [l for l in lines if l[0].islower()]
-    obs = [l for l in lines if l[0] not in "TGX"]
-    extra = [l for l in lines if l[0] in "TGX"]
+    obs = [l for l in lines if l[0] not in "TAGX"]
+    extra = [l for l in lines if l[0] in "TAGX"]
     return obs, ops, extra
 
 
@@ -805,6 +805,10 @@ def run(ctx):
                     else:
                         tree_fails.append(l)
                     ctx.evaluated()
+                elif l[0] == "A":
+                    for kv in l.split()[1:]:
+                        k, v = kv.rsplit("=", 1)
+                        stats["pgn_adjacency_" + k] = stats.get("pgn_adjacency_" + k, 0) + int(v)
                 elif l[0] == "G":
                     t = l.split()
                     stats["pgn_malformed_inputs"] = stats.get("pgn_malformed_inputs", 0) + 1
@@ -900,11 +904,27 @@ def run(ctx):
         key = "cmd:" + cmd[:300].replace(" ", ",")
         ctx.violation("text format property fails on the real code: " + what,
                       {"failing_input": {"harness_command": cmd, "decoded": describe_cmd(cmd), "detail": detail, "count": len(spec_fails)}}, key=key)
+    if tree_fails:
+        # look for a SMALL tree showing the same failure (short games, many seeds): the replay should be readable
+        small = ["PGNRT %d %d %s" % (rng.getrandbits(40), rng.choice([2, 3, 4, 6]), hx(START)) for _ in range(ctx.scale(1500, 6000))]
+        rc_s, out_s, _e = sh([cpp_exe], input="\n".join(small) + "\n", timeout=600, env=env)
+        cand = sorted((l for l in out_s.split("\n") if l.startswith("T 0")), key=len)
+        if cand:
+            heads = {l.split(" text=")[0] for l in tree_fails}
+            same = [l for l in cand if l.split(" text=")[0] in heads]
+            tree_fails = (same or cand)[:1] + tree_fails
     for l in tree_fails[:3]:
-        m = re.search(r"text=(\S+)", l)
-        ctx.violation("PGN game tree does not survive write + parse: " + l.split(" text=")[0],
-                      {"failing_input": {"observation": l[:200], "pgn_text": unhx(m.group(1)).decode("latin-1") if m else None, "count": len(tree_fails)}},
-                      key="pgn:" + l.split(" text=")[0].replace(" ", ","))
+        f = dict(re.findall(r"(text|want|got)=(\S+)", l))
+
+        def dec(k):
+            v = f.get(k)
+            return None if v is None else unhx(v).decode("latin-1")
+        head = l.split(" text=")[0]
+        ctx.violation("PGN game tree does not survive write + parse: " + head,
+                      {"failing_input": {"observation": head, "pgn_text": dec("text"), "tree_written": dec("want"),
+                                         "tree_parsed_back": dec("got") if f.get("got") != "-" else "(parser threw ChessParseError)",
+                                         "count": len(tree_fails)}},
+                      key="pgn:" + head.replace(" ", ","))
     # finding F1 is replayed on every run: is it still real?
     rc_w, out_w, err_w = sh([cpp_exe], input="STM %s %s\n" % (hx(F1_FEN), hx("Qb2")), timeout=120, env=env)
     rc_e, err_e, _o = engine_session(eng, [b"position fen " + F1_FEN.encode(), b"go depth 2"], timeout=60)
